@@ -15,28 +15,28 @@ import (
 
 // propConfig is the per-property budget and build configuration.
 type propConfig struct {
-	id         string
-	level      string // evidence level
-	checkptr   string // -d=checkptr value of the plain build
-	race       bool   // also build and run sim-race
-	plain      bool
-	quickRuns  uint64
-	thorRuns   uint64
-	quickRace  uint64
-	thorRace   uint64
-	enumQuick  bool
-	enumThor   bool
-	memKB      int64
-	quickWall  time.Duration
-	thorWall   time.Duration
-	runTimeout time.Duration // watchdog for a single replayed run
-	blackbox   bool          // children keep the in-flight input in a shared file
-	stall      time.Duration // children end themselves when a run stalls this long
-	gomaxprocs int
-	rule       string
+	id          string
+	level       string // evidence level
+	checkptr    string // -d=checkptr value of the plain build
+	race        bool   // also build and run sim-race
+	plain       bool
+	quickRuns   uint64
+	thorRuns    uint64
+	quickRace   uint64
+	thorRace    uint64
+	enumQuick   bool
+	enumThor    bool
+	memKB       int64
+	quickWall   time.Duration
+	thorWall    time.Duration
+	runTimeout  time.Duration // watchdog for a single replayed run
+	blackbox    bool          // children keep the in-flight input in a shared file
+	stall       time.Duration // children end themselves when a run stalls this long
+	gomaxprocs  int
+	rule        string
 	assumptions []string
-	realCode   []string
-	stubCode   []string
+	realCode    []string
+	stubCode    []string
 }
 
 var configs = map[string]*propConfig{
@@ -152,15 +152,15 @@ func envSeed(tier string) uint64 {
 
 type finding struct {
 	foundTrace any // the trace of the run in which the violation was first seen (fault program, ops)
-	class    string
-	oracle   string
-	detail   string
-	count    int
-	replay   string
-	known    *knownFinding
-	minEvals int
-	rendered any
-	tapeLen  [2]int
+	class      string
+	oracle     string
+	detail     string
+	count      int
+	replay     string
+	known      *knownFinding
+	minEvals   int
+	rendered   any
+	tapeLen    [2]int
 }
 
 // check runs one property's check and returns the process exit code.
@@ -432,28 +432,60 @@ func check(propID, tier string) int {
 		samples = append(samples, "no sample was emitted by the children")
 	}
 	cov := map[string]any{
-		"evaluations":         b.runs + intExtra(b.extra, "enum_cases"),
-		"distinct_nontrivial": len(b.distinct) + intExtra(b.extra, "enum_distinct_nontrivial"),
-		"rule":                cfg.rule,
-		"samples":             samples,
-		"simulated_runs":      b.runs,
-		"plain_runs":          plainRuns,
-		"race_runs":           b.runs - plainRuns,
-		"runs_per_hour":       int(float64(b.runs) / maxf(runWall, 0.001) * 3600),
-		"seeds":               fmt.Sprintf("run k uses seed mix(VERIF_SEED=%d, k), k in [0,%d)", seed, runs),
+		"evaluations":          b.runs + intExtra(b.extra, "enum_cases"),
+		"distinct_nontrivial":  len(b.distinct) + intExtra(b.extra, "enum_distinct_nontrivial"),
+		"rule":                 cfg.rule,
+		"samples":              samples,
+		"simulated_runs":       b.runs,
+		"plain_runs":           plainRuns,
+		"race_runs":            b.runs - plainRuns,
+		"runs_per_hour":        int(float64(b.runs) / maxf(runWall, 0.001) * 3600),
+		"seeds":                fmt.Sprintf("run k uses seed mix(VERIF_SEED=%d, k), k in [0,%d)", seed, runs),
 		"simulated_time_steps": b.steps,
-		"context_switches":    b.switches,
-		"faults_injected":     b.faults,
-		"probes":              b.probes,
-		"yield_sites_total":   b.sitesTotal,
-		"yield_sites_reached": len(b.sitesHit),
-		"components_real":     cfg.realCode,
-		"components_stub":     cfg.stubCode,
-		"build_s":             sc.buildS,
-		"run_wall_s":          runWall,
-		"workers":             workers,
-		"findings":            findingsOut,
-		"exhaustive":          false,
+		"context_switches":     b.switches,
+		"faults_injected":      b.faults,
+		"probes":               b.probes,
+		"yield_sites_total":    b.sitesTotal,
+		"yield_sites_reached":  len(b.sitesHit),
+		"components_real":      cfg.realCode,
+		"components_stub":      cfg.stubCode,
+		"build_s":              sc.buildS,
+		"run_wall_s":           runWall,
+		"workers":              workers,
+		"findings":             findingsOut,
+		"exhaustive":           false,
+	}
+	// reach by function of the library: which functions had at least one statement executed in this
+	// batch, and which of the functions in the property's anchor files were never entered
+	if names := readSiteTable(sc); len(names) > 0 {
+		fnAll, fnHit := map[string]bool{}, map[string]bool{}
+		for i, n := range names {
+			fn := siteFunc(n)
+			fnAll[fn] = true
+			if b.sitesHit[uint32(i)] {
+				fnHit[fn] = true
+			}
+		}
+		anchor := anchorFiles(propID)
+		var miss []string
+		nAnchor, nAnchorHit := 0, 0
+		for fn := range fnAll {
+			if !anchor[strings.SplitN(fn, ":", 2)[0]] {
+				continue
+			}
+			nAnchor++
+			if fnHit[fn] {
+				nAnchorHit++
+			} else {
+				miss = append(miss, fn)
+			}
+		}
+		sort.Strings(miss)
+		cov["library_functions_total"] = len(fnAll)
+		cov["library_functions_entered"] = len(fnHit)
+		cov["anchor_file_functions_total"] = nAnchor
+		cov["anchor_file_functions_entered"] = nAnchorHit
+		cov["anchor_file_functions_never_entered"] = miss
 	}
 	for k, v := range b.extra {
 		cov["x_"+k] = v
@@ -545,6 +577,56 @@ func materialise(ev *evaluator, plan *core.Plan) *core.Plan {
 		case strings.HasPrefix(ln, "S "):
 			fmt.Sscanf(ln[2:], "%d %d", &a, &b2)
 			out.Schedule = append(out.Schedule, [2]int64{a, b2})
+		}
+	}
+	return out
+}
+
+// readSiteTable returns the instrumenter's table of yield sites ("file:line:function") of this build.
+func readSiteTable(sc *scratch) []string {
+	raw, err := os.ReadFile(filepath.Join(sc.ap, "verifsim", "sites.go"))
+	if err != nil {
+		return nil
+	}
+	var out []string
+	for _, l := range strings.Split(string(raw), "\n") {
+		l = strings.TrimSpace(l)
+		if strings.HasPrefix(l, "\"") && strings.HasSuffix(l, "\",") {
+			if u, err := strconv.Unquote(strings.TrimSuffix(l, ",")); err == nil {
+				out = append(out, u)
+			}
+		}
+	}
+	return out
+}
+
+// siteFunc is "file.go:Function" of a site name "file.go:line:Function".
+func siteFunc(site string) string {
+	parts := strings.SplitN(site, ":", 3)
+	if len(parts) == 3 {
+		return parts[0] + ":" + parts[2]
+	}
+	return site
+}
+
+// anchorFiles are the files the property is anchored in (properties.jsonl).
+func anchorFiles(propID string) map[string]bool {
+	out := map[string]bool{}
+	raw, err := os.ReadFile(filepath.Join(verifDir, "properties.jsonl"))
+	if err != nil {
+		return out
+	}
+	for _, l := range strings.Split(string(raw), "\n") {
+		var p struct {
+			ID      string `json:"id"`
+			Anchors struct {
+				Files []string `json:"files"`
+			} `json:"anchors"`
+		}
+		if json.Unmarshal([]byte(l), &p) == nil && p.ID == propID {
+			for _, f := range p.Anchors.Files {
+				out[f] = true
+			}
 		}
 	}
 	return out
